@@ -1,6 +1,6 @@
 From Coq Require Import List NArith ZArith Bool Arith.
 Import ListNotations.
-From Stam Require Import Base.Sx Model.Offset Model.Store Model.Loader Model.Csv Spec.CsvSpec Proofs.Loader Proofs.Csv Props.C15.
+From Stam Require Import Base.Sx Model.Offset Model.Store Model.Loader Model.Csv Spec.CsvSpec Proofs.Loader Proofs.Csv Proofs.CsvSet Props.C15.
 Check (C15_split_join : forall l, (forall x, In x l -> has_semi x = false) -> l <> [] -> split (join_semi l) = l).
 Check (C15_column_shape : forall own l, own ++ push_all l = column_spec own l).
 Check (C15_kind_roundtrip : forall k, kind_of_str (kind_str k) = Ok k).
@@ -23,7 +23,10 @@ Check (C15_offset_relative : forall pb pe b e m len, pb <= b -> b <= e -> e <= p
     relative_offset (b, e) (pb, pe) m = Some off
     /\ cursor_pair (fst (off_strs (Some off))) (snd (off_strs (Some off))) = Ok (cb, ce)
     /\ selection_ts (pb, pe) (mkoff (ocur cb) (ocur ce)) = Offset.Ok (b, e)).
+Check (C15_set_file_roundtrip : forall d rows, dset_ok d -> save_set d = Some rows ->
+  exists d', load_set (name_set (d_id d)) rows = Some d' /\ content_set d' = content_set d).
 Print Assumptions C15_split_join.
+Print Assumptions C15_set_file_roundtrip.
 Print Assumptions C15_column_shape.
 Print Assumptions C15_kind_roundtrip.
 Print Assumptions C15_cursor_codec.
